@@ -9,4 +9,4 @@ for p in "$@"; do
   echo "--- $p on seeded tree"
   /verif/check "$p" 2>&1 | tail -4
 done
-git -C /repo checkout -- . && git -C /repo status --short | head -3
+git -C /repo reset -q --hard HEAD && git -C /repo status --short | head -3
